@@ -556,12 +556,14 @@ class Interp:
 
     def write_place(self, m, f, p, val):
         ref = self.resolve_place(m, f, p)
-        if ref is None:
-            return
         if p['proj'] and (isinstance(val, (Const, Kind)) or (isinstance(val, Agg) and val.variant is not None and not val.adt.startswith(('closure:', 'core::option')))):
+            # recorded even when the target is behind a reference the evaluator does not follow (`map.entry(k).or_default().flag = true`): the field
+            # name comes from the type of the place
             names = self.field_names(f, p)
             if names:
                 m.events.append(('store', names[-1], val))
+        if ref is None:
+            return
         self.store(ref, val)
 
     def field_names(self, f, p):
@@ -1428,6 +1430,9 @@ class Interp:
                 return Agg('core::option::Option', 'Some', [a0d])
             if last == 'index' and len(args) > 1 and isinstance(deref(args[1]), Agg) and 'Range' in deref(args[1]).adt:
                 return a0d
+            if last in ('split_at', 'split_at_mut') and len(args) > 1:
+                # both halves are sub-sequences of the children: each abstracted by the same sequence
+                return Agg('tuple', None, [a0d, a0d])
             if last in ('last', 'first') and getattr(self, 'children_edge_hint', None) and self.children_edge_hint.get(last) is not None:
                 # sequence evaluation with a known final (first) element of the iterated sub-sequence
                 return Agg('core::option::Option', 'Some', [self.children_edge_hint[last]])
